@@ -283,6 +283,34 @@ def r_reply_flags_are_strict_bools(r, prog):
     r.floor(2)
 
 
+def r_no_foreign_calls(r, prog):
+    """The compiler leaves the process as the Rust runtime set it up - in particular SIGPIPE stays ignored, which is what turns a generator
+    that closes its stdin early into an `Err(BrokenPipe)` from write_all (reported, naming the generator) instead of a signal that kills
+    slicec. Nothing in slicec (library or binary) calls a foreign function: no `extern "C"` item declared in the crates, nothing from libc."""
+    n_unsafe = 0
+    bad = []
+    for f in prog.fns.values():
+        if f.crate.tag not in ('slicec', 'slicec_bin') or f.generated:
+            continue
+        for c in f.calls():
+            if f.blocks[c.bb].get('cleanup'):
+                continue
+            raw = c.raw.get('f', {})
+            if raw.get('unsafe'):
+                n_unsafe += 1
+                res = raw.get('res') or raw.get('def') or ''
+                if (raw.get('local') and res not in prog.fns and raw.get('rk') == 'item') or res.startswith('libc::'):
+                    bad.append((f, c, res))
+    if n_unsafe < 3:
+        raise AnchorMissing('calls of unsafe functions in slicec (the flag the rule reads; found %d)' % n_unsafe)
+    if bad:
+        for f, c, res in bad[:3]:
+            r.finding('foreign-function-called:%s' % res, c.span, '%s calls the foreign function %s: process-wide state (signal dispositions, ...) is no longer what the error handling around the generators relies on' % (f.path, res))
+    else:
+        r.ok('no foreign function is called from slicec (%d calls of unsafe functions looked at, all Rust items with bodies or std)' % n_unsafe)
+    r.floor(1)
+
+
 def run(ctx):
     prog = ctx.prog
     ctx.run_rule('C18.1a', 'T3', 'every generator failure is converted into an Error::IO naming the generator and extended into the diagnostics', r_converter_names_generator, prog)
@@ -297,6 +325,8 @@ def run(ctx):
     ctx.run_rule('C18.1e', 'T1', 'reply decode errors are values', c11.r_reply_errors_are_values, prog)
     ctx.run_rule('C18.2', 'T10', 'identical request: encoded once, shared borrow, own arguments appended', r_identical_request, prog)
     ctx.run_rule('C18.3c', 'T3', 'presence flags of reply fields are decoded as strict bools', r_reply_flags_are_strict_bools, prog)
+    ctx.run_rule('C18.7', 'T1', 'no foreign function is called (SIGPIPE stays ignored: a generator that closes stdin early is a reported write error)', r_no_foreign_calls, prog)
+    ctx.run_rule('C18.3d', 'T2', 'a length announced by a reply never reaches an allocation unchecked (a reply that announces 2^62 bytes is an error naming the generator, not an abort)', _codec.r_announced_sizes, prog)
     ctx.run_rule('C18.3', 'T2', 'only a fully decoded reply from a clean exit is trusted; generators are independent', r_only_decoded_reply_trusted, prog)
     ctx.run_rule('C18.4', 'T2', 'compare before write, on the very path that is written', r_compare_before_write, prog)
     ctx.run_rule('C18.5', 'T3', 'all generators are spawned before any is awaited', r_spawn_all_then_wait, prog)
